@@ -1,0 +1,26 @@
+//go:build verif
+
+// Contracts for package backend, checked by /verif/kbv (build tag "verif").
+// This file contains comments only; it adds no declarations to the package.
+
+package backend
+
+//@ global [noPrefixEnd] len(noPrefixEnd) == 1 && noPrefixEnd[0] == 0
+//@ global [tombstone] bytes_eq(tombStoneBytes, "tombstone")
+//@ global [events] bytes_eq(events, "/events/")
+
+// ---- C10: range / prefix bounds ----
+
+//@ func PrefixEnd(prefix) (result)
+//@   props C10
+//@   ensures [sentinel] forall(i, 0 <= i && i < len(prefix), prefix[i] == 0xff) ==> len(result) == 1 && result[0] == 0
+//@   ensures [incremented] forall(i, 0 <= i && i < len(prefix) && prefix[i] != 0xff && forall(j, i < j && j < len(prefix), prefix[j] == 0xff), len(result) == i+1 && result[i] == prefix[i]+1 && forall(j, 0 <= j && j < i, result[j] == prefix[j]))
+//@   ensures [input-unchanged] forall(j, 0 <= j && j < len(prefix), prefix[j] == old(prefix[j]))
+//@   loop 0 invariant [range] -1 <= i && i < len(prefix) && len(end) == len(prefix) && fresh(end) && end.off == 0
+//@   loop 0 invariant [copy] forall(j, 0 <= j && j < len(prefix), end[j] == prefix[j])
+//@   loop 0 invariant [ff-suffix] forall(j, i < j && j < len(prefix), prefix[j] == 0xff)
+//@   loop 0 invariant [input] forall(j, 0 <= j && j < len(prefix), prefix[j] == old(prefix[j]))
+
+//@ func uint64ToBytes(n) (result)
+//@   props C10
+//@   ensures [be8] len(result) == 8 && be64_of(result) == n && fresh(result)
